@@ -1,11 +1,198 @@
 import SageModel.Proto
+import SageModel.Model.C11
 
-/-! Driver ops for C11 (stub: no ops yet). -/
+/-! Driver ops for C11.
+
+Request body (both ops), see `harness/src/ops/c11.rs`:
+
+  <op> h:fasta mc minlen maxlen decoys bucket report chimera minmatched isolo isohi zlo zhi
+       annotate wide deiso minpeaks ptol ftol [F [S (u32 z u32 [n (u32 u32)…])…]…] [C (a b)…] reps seed
+
+* `search`: (a b) = (threads, jitter); the reply has `1 + C·reps` runs, the first being the sequential
+  reference.
+* `batch`: (a b) = (batch_size, threads); the reply has `1 + C·reps` runs, the first being the
+  unbatched sequential reference (all spectra of all files in input order, no Runner), or is `panic`
+  when some batch size is 0.
+
+Reply:  K then per run  a b dOrd dSet [n (key rank psm_id file file_id)…]
+
+The driver cannot score spectra; what the model predicts is the *relation* between the runs:
+
+* (`par_flat_map_any_split`, `reduce_any_tree`) every run has the digests and the (key, rank) sequence
+  of the first run;
+* (`batching_irrelevant`) `file_id` of every row is what `batchFiles` assigns to its file for that
+  run's batch size — the driver evaluates `batchFiles` itself;
+* (`ids_unique_from`, `ids_range`, `ids_program_order`) the `(key, psm_id)` pairs of run `k` are
+  exactly what the counter machine hands out on the observed schedule (tasks sorted by id) started
+  at `base + (number of PSMs of the earlier runs)`, `base` being the smallest id of the first run
+  (the state of the process-global counter when the op started is not an input of the model), and
+  inside a task ids grow with rank.  This presupposes that nothing else increments `PSM_COUNTER`
+  while the op runs (`serial: true` in the harness).
+
+* `downstream`: (a b) = (threads, unused); reply `K` then per run `threads lda_ok [n (u32 disc, u32 pep)…]`;
+  spec: every run agrees with the first within `closeF32` (≤ 4 f32 ulps; exact-arithmetic sums are
+  order-free: `par_sum_any_tree`); agree: bit-identical, because no parallel float reduction is left
+  on the `score_psms` path since /repo 2c91348.
+
+`agree` is the conjunction of these; the model column shows `K nPSM base` and the first run's digests.
+`spec` evaluates the property's clauses on the implementation's reply alone.
+-/
 namespace Sage.C11
 open Sage.Proto
 
+structure Run where
+  a : Nat
+  b : Nat
+  dOrd : Nat
+  dSet : Nat
+  rows : List (Nat × Nat × Nat × Nat × Nat)     -- key rank id file file_id
+deriving Repr
+
+def Run.obs (r : Run) : Obs :=
+  { dOrd := r.dOrd, dSet := r.dSet, rows := r.rows.map (fun (k, rk, id, _, _) => (k, rk, id)) }
+
+def pRun : P Run := do
+  let a ← nat; let b ← nat; let dOrd ← nat; let dSet ← nat
+  let rows ← list (do
+    let k ← nat; let rk ← nat; let id ← nat; let f ← nat; let fid ← nat
+    pure (k, rk, id, f, fid))
+  pure { a, b, dOrd, dSet, rows }
+
+structure Request where
+  nfiles : Nat
+  nspectra : Nat
+  configs : List (Nat × Nat)
+  reps : Nat
+
+def pRequest : P Request := do
+  let _fasta ← tok
+  let _cfg ← listN int 18
+  let files ← list (list (do
+    let _ ← nat; let _ ← nat; let _ ← nat
+    let _ ← list (do let _ ← nat; let _ ← nat; pure ())
+    pure ()))
+  let configs ← list (do let a ← nat; let b ← nat; pure (a, b))
+  let reps ← nat
+  let _seed ← nat
+  pure { nfiles := files.length, nspectra := (files.map List.length).sum, configs, reps }
+
+/-- the model's `file_id` of every file position for a batch size (`none` = the `chunks(0)` panic) -/
+def fileIds (bs nfiles : Nat) : Option (List Nat) :=
+  batchFiles? (fun g (_ : Nat) => g) bs (List.range nfiles)
+
+/-- ids grow with rank inside a task (consecutive rows of the same key) -/
+def programOrder : List (Nat × Nat × Nat) → Bool
+  | (k, _, id) :: (k', rk', id') :: rest =>
+    (k != k' || decide (id < id')) && programOrder ((k', rk', id') :: rest)
+  | _ => true
+
+/-- checks of one run against the model; `bs` = the batch size in force for the run -/
+def runAgrees (ref : Run) (base : Nat) (bs : Nat) (nfiles : Nat) (r : Run) : Bool :=
+  let o := r.obs
+  r.dOrd == ref.dOrd && r.dSet == ref.dSet && o.keys == ref.obs.keys &&
+  explainedByCounter base (r.rows.map (fun (k, _, id, _, _) => (k, id))) &&
+  programOrder o.rows &&
+  (match fileIds bs nfiles with
+   | none => false
+   | some ids => r.rows.all (fun (_, _, _, f, fid) => ids[f]? == some fid))
+
+def minId (r : Run) : Nat :=
+  match r.obs.ids with
+  | [] => 0
+  | x :: xs => xs.foldl min x
+
+/-- bases of the runs: run `k` starts where run `k-1` stopped -/
+def bases (base : Nat) : List Run → List Nat
+  | [] => []
+  | r :: rs => base :: bases (base + r.rows.length) rs
+
+def specOf (req : Request) (runs : List Run) : String :=
+  -- every PSM belongs to a spectrum / file of the input
+  if runs.any (fun r => r.rows.any (fun (k, _, _, f, _) => decide (k ≥ req.nspectra) || decide (f ≥ req.nfiles)))
+  then "bad:foreign_psm"
+  -- file_id must be the global position of the file whatever the batching
+  else if runs.any (fun r => r.rows.any (fun (_, _, _, f, fid) => f != fid)) then "bad:file_id"
+  else specSearch (runs.map Run.obs)
+
+/-! ### `downstream` -/
+
+structure DRun where
+  threads : Nat
+  ldaOk : Bool
+  vals : List (Nat × Nat)      -- (discriminant_score bits, posterior_error bits), f32
+deriving Repr
+
+def pDRun : P DRun := do
+  let threads ← nat; let ldaOk ← bool
+  let vals ← list (do let a ← nat; let b ← nat; pure (a, b))
+  pure { threads, ldaOk, vals }
+
+/-- the property's "within floating-point summation error", as a stated bound on the f32 outputs:
+    identical bits (covers NaN = NaN, ±∞), or both finite and at most 4 f32 ulps apart.
+    Rationale: the outputs are f64 results rounded to f32; reordering an f64 sum of n ≤ 10⁶ terms of
+    one sign moves it by ≤ n·2⁻⁵³ relative, far below one f32 ulp, so 4 ulps leaves room for a few
+    such reductions in sequence but not for any amplification (which the property does not exempt). -/
+def closeF32 (a b : Nat) : Bool :=
+  a == b ||
+  match ratOfF32Bits a, ratOfF32Bits b with
+  | some _, some _ => decide (ulpDistF32 (Float32.ofBits a.toUInt32) (Float32.ofBits b.toUInt32) ≤ 4)
+  | _, _ => false
+
+def handleDownstream (args impl : List String) : Option Reply := do
+  let req ← run pRequest args
+  if impl == ["panic"] then pure { model := "no-panic", agree := false, spec := "na" } else
+  match run (list pDRun) impl with
+  | none => pure { model := "unparsable-impl-reply", agree := false, spec := "na" }
+  | some [] => pure { model := "0", agree := req.configs.length * req.reps == 0, spec := "na" }
+  | some (ref :: rest) =>
+    let shapeOk := (ref :: rest).length == req.configs.length * req.reps &&
+      (ref :: rest).map (·.threads) == req.configs.flatMap (fun c => List.replicate req.reps c.1)
+    let spec :=
+      if rest.any (fun r => r.ldaOk != ref.ldaOk) then "bad:downstream_lda_outcome"
+      else if rest.any (fun r => r.vals.length != ref.vals.length) then "bad:downstream_length"
+      else if rest.any (fun r => (r.vals.zip ref.vals).any (fun ((a, b), (a', b')) => !closeF32 a a' || !closeF32 b b'))
+      then "bad:downstream_drift"
+      else "ok"
+    let exact := rest.all (fun r => r.vals == ref.vals)
+    pure { model := s!"{(ref :: rest).length} {ref.vals.length} {outBool ref.ldaOk} bit-identical={outBool exact}",
+           -- the model of the code as it is NOW (/repo 2c91348): no parallel float reduction is left on the
+           -- score_psms path (every sum is a sequential fold, every par_iter an element-wise map with an
+           -- ordered collect), so the runs must be bit-identical
+           agree := shapeOk && spec == "ok" && exact, spec }
+
 def handle (op : String) (args impl : List String) : Option Reply :=
-  match op with
-  | _ => none
+  if op == "downstream" then handleDownstream args impl else
+  if op != "search" && op != "batch" then none else do
+    let isBatch := op == "batch"
+    let req ← run pRequest args
+    let expectedRuns := 1 + req.configs.length * req.reps
+    -- batch size of each run, in reply order
+    let bss : List Nat :=
+      if isBatch then 1 :: req.configs.flatMap (fun (bs, _) => List.replicate req.reps bs)
+      else List.replicate expectedRuns 1
+    let modelPanics := isBatch && bss.any (· == 0)
+    if impl == ["panic"] then
+      -- `chunks(0)` is the only modelled panic
+      pure { model := if modelPanics then "panic" else "no-panic", agree := modelPanics, spec := "na" }
+    else
+    match run (list pRun) impl with
+    | none => pure { model := "unparsable-impl-reply", agree := false, spec := "na" }
+    | some runs =>
+      let spec := specOf req runs
+      match runs with
+      | [] => pure { model := "0", agree := !modelPanics && expectedRuns == 0, spec := "na" }
+      | ref :: _ =>
+        let base := minId ref
+        let n := ref.rows.length
+        let bs0 := bases (if n == 0 then 0 else base) runs
+        let triples := (runs.zip bs0).zip bss
+        let shapeOk := runs.length == expectedRuns && !modelPanics &&
+          (runs.map (fun r => (r.a, r.b))) == (0, 0) :: req.configs.flatMap (fun c => List.replicate req.reps c)
+        let ok := shapeOk && triples.all (fun ((r, b), bs) =>
+          -- with no PSM at all there is no id to anchor the counter on
+          if n == 0 then r.rows.isEmpty && r.dOrd == ref.dOrd && r.dSet == ref.dSet
+          else runAgrees ref b bs req.nfiles r)
+        let model := s!"{expectedRuns} {n} {base} {ref.dOrd} {ref.dSet}"
+        pure { model, agree := ok, spec }
 
 end Sage.C11
